@@ -155,6 +155,11 @@ func (fr *frame) visitInstr(instr ssa.Instruction) bool /*returned*/ {
 	if m.nInstr > m.maxInstr {
 		panic(pathAbort{fmt.Sprintf("instruction limit %d reached (possible endless loop)", m.maxInstr)})
 	}
+	if m.nInstr&1023 == 0 && m.h != nil && m.h.stopped.Load() {
+		// the exploration of this harness has ended (enough counterexamples,
+		// budget): paths still running are abandoned
+		panic(pathAbort{"exploration stopped"})
+	}
 	if p := instr.Pos(); p != token.NoPos {
 		fr.curPos = p
 	}
